@@ -79,6 +79,24 @@ theories/C27/Proofs.vos theories/C27/Proofs.vok theories/C27/Proofs.required_vos
 theories/C27/Props.vo theories/C27/Props.glob theories/C27/Props.v.beautified theories/C27/Props.required_vo: theories/C27/Props.v theories/C27/Model.vo theories/C27/Proofs.vo
 theories/C27/Props.vio: theories/C27/Props.v theories/C27/Model.vio theories/C27/Proofs.vio
 theories/C27/Props.vos theories/C27/Props.vok theories/C27/Props.required_vos: theories/C27/Props.v theories/C27/Model.vos theories/C27/Proofs.vos
+theories/C30/Model.vo theories/C30/Model.glob theories/C30/Model.v.beautified theories/C30/Model.required_vo: theories/C30/Model.v 
+theories/C30/Model.vio: theories/C30/Model.v 
+theories/C30/Model.vos theories/C30/Model.vok theories/C30/Model.required_vos: theories/C30/Model.v 
+theories/C30/Proofs.vo theories/C30/Proofs.glob theories/C30/Proofs.v.beautified theories/C30/Proofs.required_vo: theories/C30/Proofs.v theories/C30/Model.vo
+theories/C30/Proofs.vio: theories/C30/Proofs.v theories/C30/Model.vio
+theories/C30/Proofs.vos theories/C30/Proofs.vok theories/C30/Proofs.required_vos: theories/C30/Proofs.v theories/C30/Model.vos
+theories/C30/Props.vo theories/C30/Props.glob theories/C30/Props.v.beautified theories/C30/Props.required_vo: theories/C30/Props.v theories/C30/Model.vo theories/C30/Proofs.vo
+theories/C30/Props.vio: theories/C30/Props.v theories/C30/Model.vio theories/C30/Proofs.vio
+theories/C30/Props.vos theories/C30/Props.vok theories/C30/Props.required_vos: theories/C30/Props.v theories/C30/Model.vos theories/C30/Proofs.vos
+theories/C32/Model.vo theories/C32/Model.glob theories/C32/Model.v.beautified theories/C32/Model.required_vo: theories/C32/Model.v 
+theories/C32/Model.vio: theories/C32/Model.v 
+theories/C32/Model.vos theories/C32/Model.vok theories/C32/Model.required_vos: theories/C32/Model.v 
+theories/C32/Proofs.vo theories/C32/Proofs.glob theories/C32/Proofs.v.beautified theories/C32/Proofs.required_vo: theories/C32/Proofs.v theories/C32/Model.vo
+theories/C32/Proofs.vio: theories/C32/Proofs.v theories/C32/Model.vio
+theories/C32/Proofs.vos theories/C32/Proofs.vok theories/C32/Proofs.required_vos: theories/C32/Proofs.v theories/C32/Model.vos
+theories/C32/Props.vo theories/C32/Props.glob theories/C32/Props.v.beautified theories/C32/Props.required_vo: theories/C32/Props.v theories/C32/Model.vo theories/C32/Proofs.vo
+theories/C32/Props.vio: theories/C32/Props.v theories/C32/Model.vio theories/C32/Proofs.vio
+theories/C32/Props.vos theories/C32/Props.vok theories/C32/Props.required_vos: theories/C32/Props.v theories/C32/Model.vos theories/C32/Proofs.vos
 theories/Lib/ArchTree.vo theories/Lib/ArchTree.glob theories/Lib/ArchTree.v.beautified theories/Lib/ArchTree.required_vo: theories/Lib/ArchTree.v theories/Base/Tactics.vo
 theories/Lib/ArchTree.vio: theories/Lib/ArchTree.v theories/Base/Tactics.vio
 theories/Lib/ArchTree.vos theories/Lib/ArchTree.vok theories/Lib/ArchTree.required_vos: theories/Lib/ArchTree.v theories/Base/Tactics.vos
